@@ -55,6 +55,15 @@ func init() {
 		}
 		return strings.Join(gs, ";")
 	})
+	// qv2extm: items qz:q:vz:vi:max:min — every element carries its own height pair, as the Go objects do
+	op("qv2extm", func(a []string) string {
+		var l []*object.QuadkeyAndVerticalID
+		for _, it := range split(a[0]) {
+			f := strings.Split(it, ":")
+			l = append(l, object.NewQuadkeyAndVerticalID(atoi(f[0]), atoi(f[1]), atoi(f[2]), atoi(f[3]), atof(f[4]), atof(f[5])))
+		}
+		return setOrErr(transform.ConvertQuadkeysAndVerticalIDsToExtendedSpatialIDs(l, atoi(a[1]), atoi(a[2])))
+	})
 	op("qv2exth", func(a []string) string {
 		var l []*object.QuadkeyAndVerticalID
 		for _, it := range split(a[0]) {
@@ -153,6 +162,17 @@ func init() {
 					}
 					l = append(l, e)
 				}
+				if rng.Intn(5) == 0 && mx > mn {
+					// a run of vertically adjacent voxels of ONE column, in any order: neighbours share the cell at their common
+					// altitude, so the corners of a later voxel may already have been reported by two different earlier ones
+					f0 := int64(math.Floor((mn + (mx-mn)*rng.Float64()*0.8) / cell))
+					x, y := randIdx(h), randIdx(h)
+					l = nil
+					for j := int64(0); j < int64(3+rng.Intn(2)); j++ {
+						l = append(l, ext{h, x, y, vz, f0 + j})
+					}
+					rng.Shuffle(len(l), func(i, j int) { l[i], l[j] = l[j], l[i] })
+				}
 				span := math.Abs(mx - mn)
 				oz := int64(math.Floor(math.Log2(span/cell))) + int64(rng.Intn(4))
 				if oz < 0 {
@@ -201,6 +221,20 @@ func init() {
 					}
 				}
 				do("qv2exth", fmt.Sprintf("%d:%d:%d:%d", qz, q, vz, vi), s(zoomNear(qz, 2, 1)), s(oz), fbits(mx), fbits(mn))
+				if rng.Intn(3) == 0 && oz-vz <= 6 { // (index-form elements are refined from vz to oz: bounded expansion)
+					// a list whose elements differ in their height pairs: the same key in index form (equal heights), in bit form
+					// (max > min) and with an inverted pair (an error), in any order and next to each other
+					pairs := [][2]float64{{mx, mx}, {mn, mn}, {0, 0}, {mx, mn}, {mx, mn - 1}, {mx, mx - 500}}
+					if rng.Intn(4) == 0 {
+						pairs = append(pairs, [2]float64{mn, mx}) // inverted when mx > mn
+					}
+					var items []string
+					for j := 2 + rng.Intn(2); j > 0; j-- {
+						p := pairs[rng.Intn(len(pairs))]
+						items = append(items, fmt.Sprintf("%d:%d:%d:%d:%s:%s", qz, q, vz, vi, fbits(p[0]), fbits(p[1])))
+					}
+					do("qv2extm", join(items), s(zoomNear(qz, 2, 1)), s(oz))
+				}
 			}
 		}
 	})
